@@ -26,6 +26,8 @@ import GeoProofs.Lemmas.C02YPointSpec
 import GeoProofs.Lemmas.C02YLinear
 import GeoProofs.Lemmas.C02YRect
 import GeoProofs.Lemmas.C02YLoop
+import GeoProofs.Lemmas.C02ZPairs
+import GeoProofs.Lemmas.C02ZRectPoly
 
 namespace Geo.Proofs.C02
 open Geo
@@ -1348,6 +1350,155 @@ theorem containsM_rect_rect (amn amx bmn bmx : Pt) (ha : inDomain (.rect amn amx
 example : containsM (.rect ⟨0, 0⟩ ⟨4, 4⟩) (.rect ⟨0, 1⟩ ⟨2, 4⟩) =
     Gen.isContains (relateSpec (.rect ⟨0, 0⟩ ⟨4, 4⟩) (.rect ⟨0, 1⟩ ⟨2, 4⟩)) :=
   containsM_rect_rect _ _ _ _ (by decide +kernel) (by decide +kernel)
+
+/-! ### C02Z: the last three hand-written `contains` pairs — LineString × Line (completeness of the truncation loop),
+LineString × LineString, Rect × Polygon -/
+
+/-- [T] **completeness of the truncation loop of `LineString: Contains<Line>`** — with `containsM_lineString_line_sound`:
+on a valid line string the loop answers `true` exactly when every point of the (non-degenerate) query segment is on the line
+string, PROVIDED the query does not run through the closure point of a closed line string (`Geo.Proofs.C02Z.noWrap`:
+`cs` open, or the first coordinate of `cs` not strictly inside `[a, b]`). Then the FIRST pass over the segments already
+answers (`Geo.Proofs.C02Z.sweep`): in the parameter of the query line every segment has an interval as trace
+(`trace_cases`); an iteration leaves the query alone, cuts it at an end point of the segment, or returns `true`, and what
+is left is covered by the later segments (finitely many segments are closed: `covered_plus` / `covered_minus`; a segment in
+the middle of the query is impossible on a simple path: `SimpleChain`, from `lineStringSimple` by `simpleChain_of_simple`).
+Full statement (no `hnw`): the excluded inputs are exactly the closed line strings whose first edge continues the last one
+with the query passing through the closure point — there the first pass leaves `[closure point, first cut]` and only the
+second pass (`i < num_lines + first_cut`) removes it; not proved ([C] decides those; `lineString_line_wrap_witness`). -/
+theorem lsContainsLine_iff_partial (cs : List Pt) (a b : Pt) (hd : inDomain (.lineString cs) = true) (hab : a ≠ b)
+    (hnw : Geo.Proofs.C02Z.noWrap cs a b = true) :
+    lsContainsLine cs a b = true ↔
+      ∀ x, Geo.Proofs.Kernel.SegMem x a b → ∃ s ∈ segs cs, Geo.Proofs.Kernel.SegMem x s.1 s.2 :=
+  Geo.Proofs.C02Z.lsContainsLine_iff_noWrap cs a b hd hab hnw
+
+example : lsContainsLine [⟨0, 0⟩, ⟨2, 0⟩, ⟨2, 0⟩, ⟨4, 0⟩, ⟨4, 4⟩, ⟨0, 4⟩, ⟨0, 0⟩] ⟨3, 0⟩ ⟨1, 0⟩ = true :=
+  (lsContainsLine_iff_partial _ _ _ (by decide +kernel) (by decide) (by decide +kernel)).mpr (fun x hx => by
+    obtain ⟨t, t0, t1, hx1, hx2⟩ := hx
+    by_cases ht : t ≤ 1 / 2
+    · exact ⟨(⟨2, 0⟩, ⟨4, 0⟩), by simp [segs], 1 / 2 - t, by linarith, by linarith, by rw [hx1]; ring, by rw [hx2]; ring⟩
+    · exact ⟨(⟨0, 0⟩, ⟨2, 0⟩), by simp [segs], 3 / 2 - t, by linarith, by linarith, by rw [hx1]; ring, by rw [hx2]; ring⟩)
+
+/-- [T] **`LineString: Contains<Line>` is the mask `T*****FF*` on the specification** (valid line string, non-degenerate
+line, the line not running through the closure point of a closed line string — every open line string qualifies,
+`Geo.Proofs.C02Z.noWrap_of_open`). Full statement: without `hnw` (see `lsContainsLine_iff_partial`). -/
+theorem containsM_lineString_line_noWrap_partial (cs : List Pt) (c d : Pt) (ha : inDomain (.lineString cs) = true)
+    (hb : inDomain (.line c d) = true) (hnw : Geo.Proofs.C02Z.noWrap cs c d = true) :
+    containsM (.lineString cs) (.line c d) = Gen.isContains (relateSpec (.lineString cs) (.line c d)) :=
+  Geo.Proofs.C02Z.containsM_lineString_line_noWrap cs c d ha hb hnw
+
+example : containsM (.lineString [⟨0, 0⟩, ⟨2, 0⟩, ⟨4, 0⟩, ⟨4, 4⟩, ⟨0, 4⟩, ⟨0, 0⟩]) (.line ⟨3, 0⟩ ⟨1, 0⟩) =
+    Gen.isContains (relateSpec (.lineString [⟨0, 0⟩, ⟨2, 0⟩, ⟨4, 0⟩, ⟨4, 4⟩, ⟨0, 4⟩, ⟨0, 0⟩]) (.line ⟨3, 0⟩ ⟨1, 0⟩)) :=
+  containsM_lineString_line_noWrap_partial _ _ _ (by decide +kernel) (by decide +kernel) (by decide +kernel)
+
+/-- [T] … in particular for every OPEN valid line string (one pass suffices; full strength on that part of the domain). -/
+theorem containsM_lineString_line_open_partial (cs : List Pt) (c d : Pt) (ha : inDomain (.lineString cs) = true)
+    (hb : inDomain (.line c d) = true) (hop : isClosedLS cs = false) :
+    containsM (.lineString cs) (.line c d) = Gen.isContains (relateSpec (.lineString cs) (.line c d)) :=
+  Geo.Proofs.C02Z.containsM_lineString_line_noWrap cs c d ha hb (Geo.Proofs.C02Z.noWrap_of_open hop c d)
+
+example : containsM (.lineString [⟨0, 0⟩, ⟨2, 0⟩, ⟨4, 0⟩, ⟨4, 4⟩]) (.line ⟨3, 0⟩ ⟨5, 0⟩) =
+    Gen.isContains (relateSpec (.lineString [⟨0, 0⟩, ⟨2, 0⟩, ⟨4, 0⟩, ⟨4, 4⟩]) (.line ⟨3, 0⟩ ⟨5, 0⟩)) :=
+  containsM_lineString_line_open_partial _ _ _ (by decide +kernel) (by decide +kernel) (by decide +kernel)
+
+/-- [T] the excluded class is not empty, and on this member of it the code is right all the same (the second pass does its
+work): a closed ring whose first edge continues the last one, the query through the closure point `(2, 0)`. -/
+theorem lineString_line_wrap_witness :
+    Geo.Proofs.C02Z.noWrap [⟨2, 0⟩, ⟨4, 0⟩, ⟨4, 4⟩, ⟨0, 4⟩, ⟨0, 0⟩, ⟨2, 0⟩] ⟨1, 0⟩ ⟨3, 0⟩ = false ∧
+    inDomain (.lineString [⟨2, 0⟩, ⟨4, 0⟩, ⟨4, 4⟩, ⟨0, 4⟩, ⟨0, 0⟩, ⟨2, 0⟩]) = true ∧
+    containsM (.lineString [⟨2, 0⟩, ⟨4, 0⟩, ⟨4, 4⟩, ⟨0, 4⟩, ⟨0, 0⟩, ⟨2, 0⟩]) (.line ⟨1, 0⟩ ⟨3, 0⟩) = true ∧
+    Gen.isContains (relateSpec (.lineString [⟨2, 0⟩, ⟨4, 0⟩, ⟨4, 4⟩, ⟨0, 4⟩, ⟨0, 0⟩, ⟨2, 0⟩]) (.line ⟨1, 0⟩ ⟨3, 0⟩)) = true := by
+  decide +kernel
+
+/-- [T] **`LineString: Contains<LineString>` (every proper segment of the argument asked of the truncation loop; zero-length
+segments only when there is no proper one — after fix f55ddeac) is the mask `T*****FF*` on the specification**, both
+operands valid, given the completeness of the loop on the proper segments of the argument (its soundness is
+`containsM_lineString_line_sound`). Specification side: the mask is "some point interior to both, every point of `ds` on
+`cs`" (`isContains_iff_point_set`); a valid non-empty argument has a proper segment, every coordinate of it is an end point of
+a proper segment (`Geo.Proofs.C02Z.coord_proper_end`), a proper segment carries a point interior to both operands. Full
+statement: without `hloop`. -/
+theorem containsM_lineString_lineString_loop_partial (cs ds : List Pt)
+    (ha : inDomain (.lineString cs) = true) (hb : inDomain (.lineString ds) = true)
+    (hloop : ∀ s ∈ segs ds, s.1 ≠ s.2 →
+      (∀ x, Geo.Proofs.Kernel.SegMem x s.1 s.2 → ∃ t ∈ segs cs, Geo.Proofs.Kernel.SegMem x t.1 t.2) →
+      lsContainsLine cs s.1 s.2 = true) :
+    containsM (.lineString cs) (.lineString ds) = Gen.isContains (relateSpec (.lineString cs) (.lineString ds)) :=
+  Geo.Proofs.C02Z.containsM_lineString_lineString_of_loop cs ds ha hb hloop
+
+example : containsM (.lineString [⟨0, 0⟩, ⟨2, 0⟩, ⟨4, 0⟩, ⟨4, 4⟩]) (.lineString [⟨3, 0⟩, ⟨1, 0⟩, ⟨1, 0⟩]) =
+    Gen.isContains (relateSpec (.lineString [⟨0, 0⟩, ⟨2, 0⟩, ⟨4, 0⟩, ⟨4, 4⟩]) (.lineString [⟨3, 0⟩, ⟨1, 0⟩, ⟨1, 0⟩])) := by
+  refine containsM_lineString_lineString_loop_partial _ _ (by decide +kernel) (by decide +kernel) ?_
+  intro s hs hne _
+  simp only [segs, List.mem_cons, List.not_mem_nil, or_false] at hs
+  rcases hs with rfl | rfl
+  · decide +kernel
+  · exact absurd rfl hne
+
+/-- [T] **`LineString: Contains<LineString>` is the mask on the specification**, both operands valid, no proper segment of the
+argument running through the closure point of a closed first operand (`Geo.Proofs.C02Z.noWrapLs`; every open first operand
+qualifies, `noWrapLs_of_open`). Full statement: without `hnw` (see `lsContainsLine_iff_partial`). -/
+theorem containsM_lineString_lineString_noWrap_partial (cs ds : List Pt)
+    (ha : inDomain (.lineString cs) = true) (hb : inDomain (.lineString ds) = true)
+    (hnw : Geo.Proofs.C02Z.noWrapLs cs ds = true) :
+    containsM (.lineString cs) (.lineString ds) = Gen.isContains (relateSpec (.lineString cs) (.lineString ds)) :=
+  Geo.Proofs.C02Z.containsM_lineString_lineString_noWrap cs ds ha hb hnw
+
+example : containsM (.lineString [⟨0, 0⟩, ⟨2, 0⟩, ⟨4, 0⟩, ⟨4, 4⟩, ⟨0, 4⟩, ⟨0, 0⟩]) (.lineString [⟨3, 0⟩, ⟨4, 0⟩, ⟨4, 0⟩, ⟨4, 2⟩]) =
+    Gen.isContains (relateSpec (.lineString [⟨0, 0⟩, ⟨2, 0⟩, ⟨4, 0⟩, ⟨4, 4⟩, ⟨0, 4⟩, ⟨0, 0⟩])
+      (.lineString [⟨3, 0⟩, ⟨4, 0⟩, ⟨4, 0⟩, ⟨4, 2⟩])) :=
+  containsM_lineString_lineString_noWrap_partial _ _ (by decide +kernel) (by decide +kernel) (by decide +kernel)
+
+/-- [T] the winding number of a closed ring about a face sample (a point perturbed by the symbolic infinitesimal) is zero
+unless the sample lies in the half-open coordinate box of the ring, in the lexicographic order of `a + b·δ` — the
+infinitesimal version of `locateFace_outside_bbox` (samples beside the boundary of the box are decided by their `δ` part). -/
+theorem windingE_in_box (e : EPt) (ring : List Pt) (hc : ring.head? = ring.getLast?) (mn mx : Pt)
+    (hbox : ∀ c ∈ ring, mn.x ≤ c.x ∧ c.x ≤ mx.x ∧ mn.y ≤ c.y ∧ c.y ≤ mx.y) (hw : windingE e ring ≠ 0) :
+    Geo.Proofs.C02Y.ELe mn.y 0 e.y0 e.y1 ∧ Geo.Proofs.C02Y.ELt e.y0 e.y1 mx.y 0 ∧
+      Geo.Proofs.C02Y.ELt e.x0 e.x1 mx.x 0 ∧ ¬ Geo.Proofs.C02Y.ELt e.x0 e.x1 mn.x 0 :=
+  Geo.Proofs.C02Z.windingE_box e ring hc mn mx hbox hw
+
+example : Geo.Proofs.C02Y.ELt 4 (-1) 4 0 :=
+  (windingE_in_box ⟨4, -1, 2, 0⟩ [⟨0, 0⟩, ⟨4, 0⟩, ⟨4, 4⟩, ⟨0, 4⟩, ⟨0, 0⟩] rfl ⟨0, 0⟩ ⟨4, 4⟩
+    (by intro c hc; simp only [List.mem_cons, List.not_mem_nil, or_false] at hc
+        rcases hc with rfl | rfl | rfl | rfl | rfl <;> norm_num) (by decide +kernel)).2.2.1
+
+/-- [T] **`Rect: Contains<Polygon>` (every exterior coordinate in the closed Rect, and one strictly inside or
+`signed_area ≠ 0`) is the mask `T*****FF*` on the specification**: Rect of positive width and height (K7 excluded), polygon of
+the validity domain (empty, or OGC-valid — holes included: `BE = F` keeps them in the box of the shell). Code `false`: the
+empty polygon has `II = F`; an exterior coordinate outside the Rect is a vertex located in `B` and outside `A`. Code `true`:
+every point and every face sample located in the polygon lies in the Rect (`windingE_in_box`), and one of the two face
+samples beside an exterior edge is interior to the polygon (`valid_polygon_side_inside`), hence to both. The one hypothesis
+left, `harea`, is only needed when NO exterior coordinate is strictly inside the Rect (all of them on its boundary):
+"an OGC-valid polygon has non-zero signed area". Full statement: without `harea`; the shoelace sum of a simple ring is not
+zero — not proved here (C05 has it for convex rings only); [C] decides those cases. -/
+theorem containsM_rect_polygon_partial (mn mx : Pt) (p : Poly)
+    (ha : inDomain (.rect mn mx) = true) (hb : inDomain (.polygon p) = true)
+    (harea : polyValid p = true → (p.ext.filter (fun c => rectContainsCoord mn mx c)).length = 0 → p.signedArea ≠ 0) :
+    containsM (.rect mn mx) (.polygon p) = Gen.isContains (relateSpec (.rect mn mx) (.polygon p)) :=
+  Geo.Proofs.C02Z.containsM_rect_polygon_partial' mn mx p ha hb harea
+
+example : containsM (.rect ⟨0, 0⟩ ⟨4, 4⟩) (.polygon ⟨[⟨0, 0⟩, ⟨4, 0⟩, ⟨4, 4⟩, ⟨0, 0⟩], []⟩) =
+    Gen.isContains (relateSpec (.rect ⟨0, 0⟩ ⟨4, 4⟩) (.polygon ⟨[⟨0, 0⟩, ⟨4, 0⟩, ⟨4, 4⟩, ⟨0, 0⟩], []⟩)) :=
+  containsM_rect_polygon_partial _ _ _ (by decide +kernel) (by decide +kernel)
+    (fun _ _ => by norm_num [Poly.signedArea, ringArea, twiceSignedRingArea, shiftedDets, det, rabs])
+
+/-- [T] … with no hypothesis on the area when some exterior coordinate of the polygon is strictly inside the Rect (full strength
+on that part of the domain; polygons with holes included). -/
+theorem containsM_rect_polygon_inner_partial (mn mx : Pt) (p : Poly)
+    (ha : inDomain (.rect mn mx) = true) (hb : inDomain (.polygon p) = true)
+    (hin : p.ext.any (fun c => rectContainsCoord mn mx c) = true) :
+    containsM (.rect mn mx) (.polygon p) = Gen.isContains (relateSpec (.rect mn mx) (.polygon p)) :=
+  Geo.Proofs.C02Z.containsM_rect_polygon_partial' mn mx p ha hb (fun _ h0 => by
+    exfalso
+    obtain ⟨c, hc, hcc⟩ := List.any_eq_true.mp hin
+    have : c ∈ p.ext.filter (fun c => rectContainsCoord mn mx c) := List.mem_filter.mpr ⟨hc, hcc⟩
+    rw [List.length_eq_zero_iff.mp h0] at this
+    cases this)
+
+example : containsM (.rect ⟨0, 0⟩ ⟨10, 10⟩) (.polygon ⟨[⟨0, 0⟩, ⟨10, 0⟩, ⟨9, 9⟩, ⟨0, 10⟩, ⟨0, 0⟩],
+      [[⟨2, 2⟩, ⟨4, 2⟩, ⟨4, 4⟩, ⟨2, 2⟩]]⟩) =
+    Gen.isContains (relateSpec (.rect ⟨0, 0⟩ ⟨10, 10⟩) (.polygon ⟨[⟨0, 0⟩, ⟨10, 0⟩, ⟨9, 9⟩, ⟨0, 10⟩, ⟨0, 0⟩],
+      [[⟨2, 2⟩, ⟨4, 2⟩, ⟨4, 4⟩, ⟨2, 2⟩]]⟩)) :=
+  containsM_rect_polygon_inner_partial _ _ _ (by decide +kernel) (by decide +kernel) (by decide +kernel)
 
 /-! ### TRAN: the `CoordinatePosition` accumulator, clause by clause, is the term read off the Rust bodies -/
 
